@@ -704,6 +704,26 @@ theorem resume_recovers_latest_push (asLoad : Bytes → Load) (c : CmdLine) (d :
   simp only [firstLoad, if_true]
   rw [resume_reads_where_autosave_writes, hfile]
 
+/-- **`persist_config off` in the Caddyfile means: never autosaved.**  Across the adapter
+    (`persist_config off` ↦ `admin.config.persist: false`) and the decoded-field test of
+    `unsyncedDecodeAndRun`: a load of such a config — at start-up, pushed, forced or not, accepted
+    or not, under any fault — performs no file operation and leaves both files as they were; a
+    Caddyfile WITHOUT the option is persisted like any other config (its load, when it returns
+    without a fault, leaves the autosave file equal to it). -/
+theorem caddyfile_persist_config (cfg : Bytes) (force accepted : Bool) (ft : Option FFault) (a : AState) :
+    ((loadStep codeStyle (caddyfileLoad cfg .off force accepted) ft a).log = [] ∧
+     (loadStep codeStyle (caddyfileLoad cfg .off force accepted) ft a).st.fs = a.fs) ∧
+    (caddyfileLoad cfg .absent force accepted).persists = true ∧
+    (InSync a → (loadStep codeStyle (caddyfileLoad cfg .absent true true) none a).st.fs.path = some cfg) := by
+  refine ⟨?_, rfl, ?_⟩
+  · have := autosave_only_if_persist_enabled codeStyle (caddyfileLoad cfg .off force accepted) ft a rfl
+    exact ⟨this.1, this.2.1⟩
+  · intro hs
+    have := autosave_latest_after_return [] a (fun e he => by cases he) hs (caddyfileLoad cfg .absent true true) rfl rfl
+    have hcfg : (caddyfileLoad cfg .absent true true).cfg = cfg := rfl
+    rw [hcfg] at this
+    simpa [runLoads, AEvent.step] using this
+
 /-- an env file that defines XDG_CONFIG_HOME moves the autosave directory (so the theorems above
     are not about a constant) -/
 example : writerDir ⟨.unset, .dir 1⟩ [[(.xdg, .dir 2)]] = .xdg 2 ∧ appConfigDir ⟨.unset, .dir 1⟩ = .home 1 ∧
